@@ -178,6 +178,7 @@ func sHigher(c *Ctx, rule string) {
 			engine.EachInstr(fn, func(in ssa.Instruction) {
 				if ifi, ok := in.(*ssa.If); ok {
 					cd := c.P.CondOf(ifi.Cond)
+					cd, _ = cd.With(func(d string) bool { return strings.HasSuffix(d, suffix) && strings.HasPrefix(d, "<-") })
 					if cd.IsRel && strings.HasSuffix(cd.X, suffix) && strings.HasPrefix(cd.X, "<-") {
 						termDesc = cd.X
 					}
